@@ -18,6 +18,15 @@ fn outcome_key(o: &Value) -> String {
             k[f] = v.clone();
         }
     }
+    // how much evaluation a completed run took is part of what is reported (iterations(), fact_count()), and
+    // decides on which side of a budget the same program falls
+    if matches!(o.get("r").and_then(|x| x.as_str()), Some("ok") | Some("nomatch") | Some("unauth")) {
+        for f in ["iterations", "fact_count"] {
+            if let Some(v) = o.get(f) {
+                k[f] = v.clone();
+            }
+        }
+    }
     k.to_string()
 }
 
@@ -49,6 +58,8 @@ pub fn run_case(case: &Value, keys: &Keys, n: usize, seed: u64) -> Value {
                         let mut a2 = a.clone();
                         let res = a2.authorize();
                         let mut o = authz_outcome_j(&res);
+                        o["iterations"] = json!(a2.iterations());
+                        o["fact_count"] = json!(a2.fact_count());
                         o["queries"] = s_authz::run_queries(&c, &pool, keys, &mut a2);
                         o
                     }
@@ -74,21 +85,22 @@ pub fn run(opts: &Opts) {
     let keys = Keys::new(&mut krng);
     let reps = if opts.thorough { 128 } else { 16 };
     let mut stats: BTreeMap<String, u64> = BTreeMap::new();
-    let mut emit = |sink: &mut Sink, case: Value, class: &str, reps: usize| {
+    let mut emit = |sink: &mut Sink, case: Value, class: &str, reps: usize| -> Value {
         let out = run_case(&case, &keys, reps, opts.seed);
         let k = out.get("outcomes").map(|o| o.as_array().unwrap().len()).unwrap_or(0);
         *stats.entry(format!("{class}/distinct_outcomes:{k}")).or_insert(0) += 1;
         sink.put(&case, &out);
+        out
     };
     if let Some(path) = &opts.replay {
         for case in read_cases(path) {
-            emit(&mut sink, case, "replay", 64);
+            let _ = emit(&mut sink, case, "replay", 64);
         }
         sink.finish();
         return;
     }
     for case in read_cases("corpus/determ.jsonl") {
-        emit(&mut sink, case, "corpus", 64);
+        let _ = emit(&mut sink, case, "corpus", 64);
     }
     let n = if opts.n > 0 { opts.n } else if opts.thorough { 3_000 } else { 300 };
     for i in 0..n {
@@ -96,7 +108,46 @@ pub fn run(opts: &Opts) {
         let o = GenOpts { err_rate: if i % 2 == 0 { 3 } else { 0 }, max_blocks: 3 };
         let mut case = s_authz::gen_case(&mut rng, &keys, &o);
         case["op"] = json!("determ");
-        emit(&mut sink, case, "gen", reps);
+        if i % 3 == 0 {
+            // a derivation that crosses rule groups (rules are grouped by what they trust): authority rule ->
+            // authorizer rule -> authorizer rule, and authority rule -> rule of the last block; the number of passes
+            // the fixpoint takes must not depend on the order in which the groups are visited
+            use biscuit_auth::builder::{Predicate, Rule, Term};
+            let mut pool = Pool::default();
+            for s in pool_of(&case) {
+                pool.get(&s);
+            }
+            let p = |n: &str, t: Term| Predicate { name: n.to_string(), terms: vec![t] };
+            let r = |h: &str, b: &str| Rule::new(p(h, Term::Variable("x".into())), vec![p(b, Term::Variable("x".into()))], vec![], vec![]);
+            case["blocks"][0]["facts"].as_array_mut().unwrap().push(pred_j(&p("chain_a", Term::Integer(1)), &mut pool));
+            case["blocks"][0]["rules"].as_array_mut().unwrap().push(rule_j(&r("chain_b", "chain_a"), &mut pool, &keys));
+            case["az"]["rules"].as_array_mut().unwrap().push(rule_j(&r("chain_c", "chain_b"), &mut pool, &keys));
+            case["az"]["rules"].as_array_mut().unwrap().push(rule_j(&r("chain_d", "chain_c"), &mut pool, &keys));
+            let nb = case["blocks"].as_array().unwrap().len();
+            if nb >= 2 {
+                case["blocks"][nb - 1]["rules"].as_array_mut().unwrap().push(rule_j(&r("chain_e", "chain_b"), &mut pool, &keys));
+                case["blocks"][0]["rules"].as_array_mut().unwrap().push(rule_j(&r("chain_f", "chain_b"), &mut pool, &keys));
+            }
+            case["pool"] = json!(pool.strs);
+        }
+        let out = emit(&mut sink, case.clone(), "gen", reps);
+        // the same program with budgets at the edge of what it needs: on which side it falls must not depend on
+        // the build either
+        let first = &out["outcomes"][0];
+        if let (Some(it), Some(nf)) = (first.get("iterations").and_then(|x| x.as_u64()), first.get("fact_count").and_then(|x| x.as_u64())) {
+            if matches!(first.get("r").and_then(|x| x.as_str()), Some("ok") | Some("nomatch") | Some("unauth")) && it >= 1 {
+                for _ in 0..2 {
+                    let mut c2 = case.clone();
+                    let (f, i2) = if rng.gen() {
+                        (1000, *pick(&mut rng, &[it.saturating_sub(1).max(1), it, it + 1]))
+                    } else {
+                        (*pick(&mut rng, &[nf.saturating_sub(1), nf, nf + 1, nf + 2]), 100)
+                    };
+                    c2["limits"] = json!({"f": f, "i": i2});
+                    emit(&mut sink, c2, "boundary", reps);
+                }
+            }
+        }
     }
     let total = sink.count;
     sink.finish();
